@@ -233,6 +233,82 @@ Definition on_timeout (m : mgr) (now maxb : N) : mgr * list N :=
 Definition discard (m : mgr) : mgr :=
   cc_path m 0 0 0 0 (fold_right (fun p acc => p_bytes p + acc) 0 (sentp m)).
 
+(* ---- what the manager hands to the congestion controller, call by call ----
+   kind 1 on_packet_sent (a = time_sent, b = bytes, c = app_limited: 0 None)
+        2 on_ack (a = send time of the newest acknowledged packet, b = bytes, c = ack receive time,
+                  d = the path's estimator has a first RTT sample)
+        3 on_packet_lost (a = lost bytes, b = persistent_congestion, c = new_loss_burst, d = timestamp)
+        4 on_packet_discarded (a = bytes) *)
+Record call := { k_kind : N; k_path : N; k_a : N; k_b : N; k_c : N; k_d : N }.
+Definition nb (b : bool) : N := if b then 1 else 0.
+
+(* remove_lost_packets: one on_packet_lost per lost packet that carries bytes; the timestamp is the
+   detection time; a loss burst starts at the first lost packet and after every packet number gap *)
+Fixpoint lost_calls (m : mgr) (pcd cpath now : N) (prev : option N) (ls : list pkt) : list call :=
+  match ls with
+  | [] => []
+  | p :: t =>
+      let persistent := (persistent_congestion_threshold (rt (get_path m (p_path p))) <? pcd) && (p_path p =? cpath) in
+      let burst := match prev with None => true | Some q => negb (p_pn p =? q + 1) end in
+      (if 0 <? p_bytes p
+       then [{| k_kind := 3; k_path := p_path p; k_a := p_bytes p; k_b := nb persistent; k_c := nb burst; k_d := now |}]
+       else [])
+      ++ lost_calls m pcd cpath now (Some (p_pn p)) t
+  end.
+
+Definition detect_calls (m : mgr) (now cpath : N) : list call :=
+  match largest m with
+  | None => []
+  | Some lg =>
+      let '(ls, c, _) := detect_walk m lg now cpath (sentp m) {| cur := None; maxd := 0 |} in
+      lost_calls m (maxd c) cpath now None ls
+  end.
+
+(* the state on which on_ack_frame runs loss detection (see on_ack_frame) *)
+Definition ack_pre_state (m : mgr) (now : N) (rs : list (N * N)) (lgf ack_delay rxpath : N) : option (mgr * list pkt) :=
+  let '(sp, acked, hulls) := ack_ranges (sentp m) rs in
+  let lg' := match largest m with Some c => if lgf <? c then Some c else Some lgf | None => Some lgf end in
+  let m1 := upd_core m sp lg' (loss_timer m) (ptos m) in
+  match largest_newly acked None with
+  | None => None
+  | Some ln =>
+      let should := (rxpath =? p_path ln) && (p_pn ln =? lgf) && existsb p_ae acked in
+      Some (if should then
+              let path := get_path m1 (p_path ln) in
+              set_path m1 (p_path ln)
+                {| rt := update_rtt (rt path) ack_delay (ts_sub now (p_time ln)) (m_conf m1) (m_space m1);
+                   fts := match fts path with Some t => Some t | None => Some now end;
+                   ccs := ccs path |}
+            else m1, acked)
+  end.
+
+Definition ack_calls (m : mgr) (now : N) (rs : list (N * N)) (lgf ack_delay rxpath : N) : list call :=
+  match ack_pre_state m now rs lgf ack_delay rxpath with
+  | None => []
+  | Some (m2, acked) =>
+      let mf := fst (fst (on_ack_frame m now rs lgf ack_delay rxpath)) in
+      let other := filter (fun p => negb (p_path p =? rxpath) && (0 <? p_bytes p)) acked in
+      let mine := filter (fun p => p_path p =? rxpath) acked in
+      detect_calls m2 now rxpath
+      ++ map (fun p => {| k_kind := 2; k_path := p_path p; k_a := p_time p; k_b := p_bytes p; k_c := now;
+                          k_d := nb (first (rt (get_path mf (p_path p)))) |}) other
+      ++ match largest_newly mine None with
+         | Some ln => if 0 <? sum_bytes_on acked rxpath
+                      then [{| k_kind := 2; k_path := rxpath; k_a := p_time ln; k_b := sum_bytes_on acked rxpath; k_c := now;
+                               k_d := nb (first (rt (get_path mf rxpath))) |}]
+                      else []
+         | None => []
+         end
+  end.
+
+Definition timeout_calls (m : mgr) (now : N) : list call :=
+  match loss_timer m with
+  | Some lt => if has_elapsed lt now then detect_calls (upd_core m (sentp m) (largest m) None (ptos m)) now 0 else []
+  | None => []
+  end.
+
+Definition total_bytes (l : list pkt) : N := fold_right (fun p acc => p_bytes p + acc) 0 l.
+
 (* Initial/Handshake spaces and the client use one path only (the driver enforces it) *)
 Definition single (m : mgr) : bool := m_client m || negb (m_space m =? 2).
 
@@ -303,6 +379,32 @@ Definition mstep (m : mgr) (c a b d e f g : Z) : mgr * Z * list N * list (N * N)
   else if (c =? 8)%Z then (peer_validated m, 0%Z, [], [], false)
   else (m, 0%Z, [], [], false).
 
+(* the controller calls of one op (computed from the state before the op) *)
+Definition mcalls (m : mgr) (c a b d e f g : Z) : list call :=
+  if (c =? 1)%Z then
+    [{| k_kind := 1; k_path := if single m || (f =? 0)%Z then 0 else 1; k_a := m_now m + zN e; k_b := zN b; k_c := 0; k_d := 0 |}]
+  else if (c =? 2)%Z then []
+  else if ((c =? 3) || (c =? 4))%Z then
+    let now := m_now m + zN a in
+    let m0 := set_now m now in
+    let m0 := if mp m0 then burst_complete m0 now else m0 in
+    if match lastpn m with Some l => zN b <=? l | None => false end
+    then ack_calls m0 now (mk_ranges (zN b) (zN d) (zN e) (zN f)) (zN b) (zN g * 1000) (if (c =? 4)%Z && negb (single m) then 1 else 0)
+    else []
+  else if (c =? 5)%Z then
+    let now := m_now m + zN a in
+    let m0 := set_now m now in
+    let m1 := if mp m0 then burst_complete m0 now else m0 in
+    match backoff_cap (backoff m1) with Some _ => timeout_calls m1 now | None => [] end
+  else if (c =? 6)%Z then
+    if m_space m =? 2 then [] else [{| k_kind := 4; k_path := 0; k_a := total_bytes (sentp m); k_b := 0; k_c := 0; k_d := 0 |}]
+  else if (c =? 7)%Z then
+    if m_client m then [{| k_kind := 4; k_path := 0; k_a := total_bytes (sentp m); k_b := 0; k_c := 0; k_d := 0 |}] else []
+  else [].
+
+Definition call_z (k : call) : list Z := [Nz (k_kind k); Nz (k_path k); Nz (k_a k); Nz (k_b k); Nz (k_c k); Nz (k_d k)].
+Definition calls_z (l : list call) : list Z := flat_map call_z l.
+
 Definition hull_z (l : list (N * N)) : list Z := flat_map (fun h => [Nz (fst h); Nz (snd h)]) l.
 
 Definition cc_z (c : cc) : list Z := [Nz (c_sent c); Nz (c_acked c); Nz (c_lost c); Nz (c_disc c)].
@@ -320,8 +422,9 @@ Fixpoint ins_h (h : N * N) (l : list (N * N)) : list (N * N) :=
   end.
 Definition sort_h (l : list (N * N)) : list (N * N) := fold_right ins_h [] l.
 
-Definition mobs (m : mgr) (code : Z) (lost : list N) (hulls : list (N * N)) : list Z :=
+Definition mobs (m : mgr) (code : Z) (lost : list N) (hulls : list (N * N)) (calls : list call) : list Z :=
   [code; Z.of_nat (length lost)] ++ map Nz lost ++ [Z.of_nat (length hulls)] ++ hull_z (sort_h hulls)
+  ++ [Z.of_nat (length calls)] ++ calls_z calls
   ++ cc_z (ccs (pa m)) ++ cc_z (ccs (pb m))
   ++ [match next_exp m with Some _ => 1%Z | None => 0%Z end; match next_exp m with Some t => Nz t | None => 0%Z end;
       Nz (backoff m); bz (0 <? transmissions (ptos m))]
@@ -331,7 +434,7 @@ Fixpoint run_ops (m : mgr) (l : list Z) : list Z :=
   match l with
   | c :: a :: b :: d :: e :: f :: g :: _ :: t =>
       let '(m', code, lost, hulls, stop) := mstep m c a b d e f g in
-      mobs m' code lost hulls ++ (if stop then [] else run_ops m' t)
+      mobs m' code lost hulls (mcalls m c a b d e f g) ++ (if stop then [] else run_ops m' t)
   | _ => []
   end.
 
@@ -357,7 +460,10 @@ Definition run (case : list Z) : list Z :=
      bytes in flight = sent - acked - lost - discarded = total size of the unresolved packets;
    - the PTO backoff only doubles on a timeout, only resets to 1 on an ACK, and is never 0;
    - a space discard (Initial/Handshake) and a Retry (client) take exactly the unresolved bytes out of
-     flight and resolve every packet. *)
+     flight and resolve every packet;
+   - every congestion-controller call carries the op's time where the API means "now": on_packet_lost the
+     detection time (RFC 9002 7.3.2: the recovery period starts when loss is detected), with positive bytes;
+     on_packet_sent the send time; on_ack the receive time. *)
 Record jm := {
   j_un : list pkt;            (* unresolved packets, ascending *)
   j_lg : option N;
@@ -377,7 +483,7 @@ Fixpoint pairs (l : list Z) : list (N * N) :=
   match l with a :: b :: t => (zN a, zN b) :: pairs t | _ => [] end.
 
 (* split one op's output: (code, lost, hulls, rest of 20, remaining output) *)
-Definition parse_obs (o : list Z) : option (Z * list N * list (N * N) * list Z * list Z) :=
+Definition parse_obs (o : list Z) : option (Z * list N * list (N * N) * list Z * list Z * list Z) :=
   match o with
   | code :: nl :: o1 =>
       if (nl <? 0)%Z then None else
@@ -388,13 +494,41 @@ Definition parse_obs (o : list Z) : option (Z * list N * list (N * N) * list Z *
           if (nh <? 0)%Z then None else
           let h := Z.to_nat nh in
           let hz := firstn (2 * h) o2 in
-          let o3 := skipn (2 * h) o2 in
-          if negb (Nat.eqb (length (firstn n o1)) n && Nat.eqb (length hz) (2 * h) && Nat.leb 20 (length o3)) then None else
-          Some (code, lost, pairs hz, firstn 20 o3, skipn 20 o3)
+          match skipn (2 * h) o2 with
+          | nc :: o4 =>
+              if (nc <? 0)%Z then None else
+              let k := Z.to_nat nc in
+              let cz := firstn (6 * k) o4 in
+              let o5 := skipn (6 * k) o4 in
+              if negb (Nat.eqb (length (firstn n o1)) n && Nat.eqb (length hz) (2 * h) && Nat.eqb (length cz) (6 * k)
+                       && Nat.leb 20 (length o5)) then None else
+              Some (code, lost, pairs hz, cz, firstn 20 o5, skipn 20 o5)
+          | [] => None
+          end
       | [] => None
       end
   | _ => None
   end.
+
+(* the controller calls of an op, checked against the op's time (RFC 9002 7.3.2 / 7.6: the recovery
+   period starts when the loss is detected, so on_packet_lost must carry the detection time; a sent
+   packet is reported with its send time; an ACK with the time it was received) *)
+Fixpoint calls_ok (now : N) (l : list Z) : bool :=
+  match l with
+  | [] => true
+  | k :: _ :: a :: _ :: c :: d :: t =>
+      (if (k =? 1)%Z then zN a =? now
+       else if (k =? 2)%Z then zN c =? now
+       else if (k =? 3)%Z then (zN d =? now) && (0 <? zN a)
+       else true) && calls_ok now t
+  | _ => false
+  end.
+
+(* the time of an op: the clock advanced by the op's delta *)
+Definition op_now (t0 : N) (c a e : Z) : N :=
+  if (c =? 1)%Z then t0 + zN e
+  else if ((c =? 2) || ((c =? 3) || (c =? 4)) || (c =? 5))%Z then t0 + zN a
+  else t0.
 
 Definition cc_of (l : list Z) (i : nat) : cc :=
   {| c_sent := zN (znth l i); c_acked := zN (znth l (i + 1)); c_lost := zN (znth l (i + 2)); c_disc := zN (znth l (i + 3)) |}.
@@ -444,8 +578,9 @@ Definition all_nonneg (l : list Z) : bool := forallb (fun z => (0 <=? z)%Z) l.
 Definition jstep_m (tol : bool) (app client : bool) (j : jm) (c a b d e f g : Z) (o : list Z) : option (jm * list Z * bool) :=
   match parse_obs o with
   | None => None
-  | Some (code, lost, hulls, rest, remaining) =>
+  | Some (code, lost, hulls, calls, rest, remaining) =>
     if negb (all_nonneg (firstn (length o - length remaining) o)) then None else
+    if negb (calls_ok (op_now (j_now j) c a e) calls) then None else
     let cc0 := cc_of rest 0 in let cc1 := cc_of rest 4 in
     let bo := zN (znth rest 10) in
     let bif_ok (un : list pkt) :=
